@@ -12,10 +12,19 @@
 //         pre = the value the bound field holds BEFORE App.Run (a constructor default); with pre set, every route
 //         runs on a component whose field was pre-filled, and one more run ("fresh": the prefix route, for a literal
 //         the value route) binds the same thing into a zero component
+//         A group with "mutate":true checks that bound values share nothing with the configuration nor with each other:
+//         a post-processor of the driver (PostProcessAfterInitialization) visits the fields of every component of the
+//         group as soon as the component is initialised, in declaration order, and for each field FIRST takes the
+//         observation the case reports and THEN changes the bound value in place like a component that owns it may do
+//         (maps: every entry overwritten, a key added, a key deleted; slices: every element overwritten, the order
+//         reversed; through pointers, struct fields, typed elements; with "deep":true also into the maps / lists held
+//         in interface-typed positions, and `any` fields themselves).  So every field is observed after all fields
+//         before it - of the same component, of components created earlier, of earlier starts - were scribbled over.
+//         After the start Configure.Get(key) is read once more on the SAME App ("get2").
 //         <T> = {"k":"string"|"bool"|"int"|"uint"|"float"|"any"|"ptr"|"slice"|"map"|"struct",
 //                "bits":8|16|32|64|0 (0 = int/uint), "e":<T>,
 //                "f":[{"go":"Name","tags":[{"k":"yaml","v":"tag text"}...],"name":"name to render the field under","t":<T>}]}
-// stdout: @@JSON {"outs":[{id, get:<cval>|null, prefix:<obs>, value:<obs>, prop:<obs>, fresh:<obs>, pre:<fval> read back}],
+// stdout: @@JSON {"outs":[{id, get:<cval>|null, get2:<cval>|null, prefix:<obs>, value:<obs>, prop:<obs>, fresh:<obs>, pre:<fval> read back}],
 //                 "gouts":[{gid, outs:[... one per case of the group, in order ...]}]}
 //         <obs>  = {"o":"ok","f":<fval>} | {"o":"err","d":detail} | {"o":"panic","d":detail} | {"o":"hang"} | null (route not run)
 //         <fval> = {"S":hex} {"B":bool} {"I":"dec"} {"F":"shortest float text"} {"N":1} {"P":fval} {"L":[fval]}
@@ -90,6 +99,7 @@ type Out struct {
 	Prop   any `json:"prop"`
 	Fresh  any `json:"fresh"` // pre-filled cases: the same binding into a zero component
 	Pre    any `json:"pre"`   // pre-filled cases: the pre-filled field as rendered before Run
+	Get2   any `json:"get2"`  // mutating groups: Configure.Get(key) on the App of the bindings, after the holders changed their values
 }
 
 type Comp struct {
@@ -104,6 +114,152 @@ type Start struct {
 type Group struct {
 	GID    int     `json:"gid"`
 	Starts []Start `json:"starts"`
+	Mutate bool    `json:"mutate"` // every holder changes its bound maps / slices in place once it is initialised
+	Deep   bool    `json:"deep"`   // ... also the maps / lists held in interface-typed positions
+}
+
+// mutator: a post-processor of the driver; hook sees every component right after its initialisation
+type mutator struct {
+	hook func(component any)
+}
+
+func (m *mutator) PostProcessBeforeInitialization(component any, componentName string) (any, error) {
+	return component, nil
+}
+
+func (m *mutator) PostProcessAfterInitialization(component any, componentName string) (any, error) {
+	m.hook(component)
+	return component, nil
+}
+
+// junk: a value of type t that no generated configuration holds
+func junk(rt reflect.Type, t *TypeSpec) reflect.Value {
+	v := reflect.New(rt).Elem()
+	switch t.K {
+	case "string":
+		v.SetString("\x7fscribbled")
+	case "bool":
+		v.SetBool(true)
+	case "int":
+		v.SetInt(97)
+	case "uint":
+		v.SetUint(97)
+	case "float":
+		v.SetFloat(97.5)
+	case "any":
+		v.Set(reflect.ValueOf("\x7fscribbled-any"))
+	case "ptr":
+		p := reflect.New(rt.Elem())
+		p.Elem().Set(junk(rt.Elem(), t.E))
+		v.Set(p)
+	case "slice":
+		v.Set(reflect.Append(reflect.MakeSlice(rt, 0, 1), junk(rt.Elem(), t.E)))
+	case "map":
+		m := reflect.MakeMap(rt)
+		m.SetMapIndex(reflect.ValueOf("scribbled"), junk(rt.Elem(), t.E))
+		v.Set(m)
+	case "struct":
+		for i := range t.F {
+			v.Field(i).Set(junk(rt.Field(i).Type, &t.F[i].T))
+		}
+	}
+	return v
+}
+
+// scribbleDyn changes a dynamically typed configuration value in place (deep mode): maps and lists at any depth
+func scribbleDyn(x any) {
+	switch c := x.(type) {
+	case map[string]any:
+		keys := make([]string, 0, len(c))
+		for k := range c {
+			keys = append(keys, k)
+		}
+		sort.Strings(keys)
+		for _, k := range keys {
+			scribbleDyn(c[k])
+		}
+		if len(keys) > 0 {
+			c[keys[0]] = "\x7fscribbled-any"
+		}
+		c["zz_added"] = "\x7fadded"
+		if len(keys) > 1 {
+			delete(c, keys[len(keys)-1])
+		}
+	case []any:
+		for i := range c {
+			scribbleDyn(c[i])
+		}
+		for i, j := 0, len(c)-1; i < j; i, j = i+1, j-1 {
+			c[i], c[j] = c[j], c[i]
+		}
+		if len(c) > 0 {
+			c[0] = "\x7fscribbled-any"
+		}
+	}
+}
+
+// scribbleField changes the value bound to a field in place, the way a component that owns the value may: whatever is
+// reachable through pointers, struct fields, map values and slice elements of DECLARED container types; with deep also
+// through interface-typed positions.  Scalars are left alone (assigning to one's own field shares nothing).
+func scribbleField(v reflect.Value, t *TypeSpec, deep bool) {
+	switch t.K {
+	case "ptr":
+		if !v.IsNil() {
+			scribbleField(v.Elem(), t.E, deep)
+		}
+	case "struct":
+		for i := range t.F {
+			scribbleField(v.Field(i), &t.F[i].T, deep)
+		}
+	case "any":
+		if deep && !v.IsNil() {
+			scribbleDyn(v.Interface())
+		}
+	case "slice":
+		if v.IsNil() {
+			return
+		}
+		n := v.Len()
+		for i := 0; i < n; i++ {
+			scribbleField(v.Index(i), t.E, deep)
+		}
+		tmp := reflect.New(v.Type().Elem()).Elem()
+		for i, j := 0, n-1; i < j; i, j = i+1, j-1 {
+			tmp.Set(v.Index(i))
+			v.Index(i).Set(v.Index(j))
+			v.Index(j).Set(tmp)
+		}
+		if n > 0 {
+			v.Index(0).Set(junk(v.Type().Elem(), t.E))
+		}
+	case "map":
+		if v.IsNil() {
+			return
+		}
+		keys := make([]string, 0, v.Len())
+		for _, k := range v.MapKeys() {
+			keys = append(keys, k.String())
+		}
+		sort.Strings(keys)
+		for _, k := range keys {
+			kv := reflect.ValueOf(k)
+			switch t.E.K {
+			case "ptr", "map", "slice": // references: what they point to is changed in place
+				scribbleField(v.MapIndex(kv), t.E, deep)
+			case "any":
+				if deep {
+					scribbleDyn(v.MapIndex(kv).Interface())
+				}
+			}
+		}
+		if len(keys) > 0 {
+			v.SetMapIndex(reflect.ValueOf(keys[0]), junk(v.Type().Elem(), t.E))
+		}
+		v.SetMapIndex(reflect.ValueOf("zz_added"), junk(v.Type().Elem(), t.E))
+		if len(keys) > 1 {
+			v.SetMapIndex(reflect.ValueOf(keys[len(keys)-1]), reflect.Value{})
+		}
+	}
 }
 
 type GroupOut struct {
@@ -566,6 +722,19 @@ func runGroup(g Group) GroupOut {
 		var holders []reflect.Value
 		var comps []any
 		var runErr error
+		var observed []bool         // mutating groups: the slot was observed by the post-processor
+		byHolder := map[any][]int{} // component -> its slots
+		observeSlot := func(j int) {
+			s := slots[j]
+			var f any
+			q := hx.Guard(func() { f = canonField(holders[j].Elem().Field(s.field), s.spec) })
+			if q != "" {
+				setRoute(s.out, s.route, map[string]any{"o": "panic", "d": "observe: " + clip(q)})
+			} else {
+				setRoute(s.out, s.route, map[string]any{"o": "ok", "f": f})
+			}
+		}
+		var a *app.App
 		p = hx.Guard(func() {
 			k := 0
 			for ci := range st.Comps {
@@ -606,8 +775,27 @@ func runGroup(g Group) GroupOut {
 					holders = append(holders, holder)
 				}
 				comps = append(comps, holder.Interface())
+				for j := base; j < len(slots); j++ {
+					byHolder[holder.Interface()] = append(byHolder[holder.Interface()], j)
+				}
 			}
-			a := app.NewApp()
+			observed = make([]bool, len(slots))
+			if g.Mutate {
+				comps = append(comps, &mutator{hook: func(component any) {
+					for _, j := range byHolder[component] {
+						if observed[j] {
+							continue
+						}
+						observed[j] = true
+						observeSlot(j)
+						s := slots[j]
+						if q := hx.Guard(func() { scribbleField(holders[j].Elem().Field(s.field), s.spec, g.Deep) }); q != "" {
+							setRoute(s.out, s.route, map[string]any{"o": "panic", "d": "harness: scribble: " + clip(q)})
+						}
+					}
+				}})
+			}
+			a = app.NewApp()
 			runErr = a.Run(app.SetConfigLoader(loader.NewRawLoader([]byte(st.Yaml))), app.SetComponents(comps...))
 		})
 		if p != "" || runErr != nil {
@@ -626,15 +814,24 @@ func runGroup(g Group) GroupOut {
 				setRoute(s.out, s.route, bad)
 			}
 		} else {
-			for j, s := range slots {
-				var f any
-				s := s
-				hv := holders[j]
-				q := hx.Guard(func() { f = canonField(hv.Elem().Field(s.field), s.spec) })
-				if q != "" {
-					setRoute(s.out, s.route, map[string]any{"o": "panic", "d": "observe: " + clip(q)})
-				} else {
-					setRoute(s.out, s.route, map[string]any{"o": "ok", "f": f})
+			for j := range slots {
+				if !observed[j] {
+					observeSlot(j)
+				}
+			}
+			if g.Mutate {
+				// the configuration itself, read again where the bindings happened
+				k := 0
+				for ci := range st.Comps {
+					for _, c := range st.Comps[ci].Cases {
+						if c.Kind != "lit" {
+							key := c.Key
+							if q := hx.Guard(func() { outs[k].Get2 = canonAny(a.Get(key)) }); q != "" {
+								outs[k].Get2 = map[string]any{"x": "get failed: " + clip(q)}
+							}
+						}
+						k++
+					}
 				}
 			}
 		}
